@@ -175,6 +175,9 @@ def step (s : SState) : Cmd → SState
       { s1 with insts := s1.insts ++ [.attached s.nclasses Layer.empty] }
     else s
 
+/-- a whole history on the layered store -/
+def run (s : SState) (cmds : List Cmd) : SState := cmds.foldl step s
+
 /-! ### abstraction of a model state: which layer each view holds -/
 
 def frameLayer (f : Frame) : Layer := fun k => AList.get? f k
